@@ -689,6 +689,9 @@ func (i *PostingsIterator) ReplaceActual(abm *roaring.Bitmap) {
 }
 
 func (i *PostingsIterator) Count() uint64 {
+	if i.postings == nil {
+		return 0 // the shared iterator of an empty postings list
+	}
 	return i.postings.Count()
 }
 
